@@ -38,6 +38,8 @@ type concConn struct {
 	pend    []byte
 	ackMode bool
 	pongKey []byte
+	pongDelay time.Duration // the PONG arrives this long after the PING
+	gotPing chan struct{}   // signalled when a PING has been written
 	rbuf    []byte
 	id      int
 	w       *concWorld
@@ -75,7 +77,17 @@ func (c *concConn) Write(b []byte) (int, error) {
 		if _, err := ping.UnmarshalMsg(b); err == nil {
 			d := hexDigest(ping.SharedKeySalt, []byte("srv"), []byte("n"), c.pongKey)
 			p, _ := (&protocol.Pong{MessageType: "PONG", AuthResult: true, ServerHostname: "srv", SharedKeyHexDigest: string(d)}).MarshalMsg(nil)
-			c.acks <- p
+			if c.gotPing != nil {
+				select {
+				case c.gotPing <- struct{}{}:
+				default:
+				}
+			}
+			if c.pongDelay > 0 {
+				go func() { time.Sleep(c.pongDelay); c.acks <- p }()
+			} else {
+				c.acks <- p
+			}
 		}
 	}
 	if c.ackMode {
@@ -145,6 +157,7 @@ func (c *concConn) SetWriteDeadline(t time.Time) error { return nil }
 
 type concFactory struct {
 	w       *concWorld
+	pongDelay time.Duration
 	pongKey []byte
 	ack     bool
 	conns []*concConn
@@ -161,7 +174,8 @@ func (f *concFactory) New() (net.Conn, error) {
 		f.w.max = f.w.open
 	}
 	f.w.mu.Unlock()
-	c := &concConn{acks: make(chan []byte, 1024), ackMode: f.ack, id: id, w: f.w, pongKey: f.pongKey}
+	c := &concConn{acks: make(chan []byte, 1024), ackMode: f.ack, id: id, w: f.w, pongKey: f.pongKey, pongDelay: f.pongDelay,
+		gotPing: make(chan struct{}, 1)}
 	if f.helo != nil {
 		c.rbuf = append([]byte{}, f.helo...)
 	}
@@ -297,7 +311,7 @@ func init() {
 					for j := 0; j < K; j++ {
 						sz := sizes[r.Intn(len(sizes))]
 						letters := bytes.Repeat([]byte{byte('a' + g)}, sz)
-						kind := []string{"msg", "fwd", "pfb", "pfb", "raw"}[r.Intn(5)]
+						kind := []string{"msg", "fwd", "pfb", "pfb", "raw", "lst"}[r.Intn(6)]
 						tag := fmt.Sprintf("g%d.%s%d", g, kind, j)
 						var err error
 						switch kind {
@@ -305,6 +319,17 @@ func init() {
 							err = c.SendMessage(tag, map[string]interface{}{"p": string(letters)})
 						case "fwd":
 							err = c.SendForward(tag, protocol.EntryList{{Timestamp: protocol.EventTimeNow(), Record: map[string]interface{}{"p": string(letters)}}})
+						case "lst":
+							// a record holding a list (a kind of value whose encoded size a guess may get wrong)
+							lst := make([]interface{}, 0, sz/50+1)
+							for k := 0; k < sz; k += 50 {
+								e := k + 50
+								if e > sz {
+									e = sz
+								}
+								lst = append(lst, string(letters[k:e]))
+							}
+							err = c.SendMessage(tag, map[string]interface{}{"p": lst})
 						case "pfb":
 							err = c.SendPackedFromBytes(tag, letters)
 						default:
@@ -350,6 +375,18 @@ func init() {
 					switch e.kind {
 					case "msg", "raw":
 						good = len(t.A) >= 3 && t.A[2].K == KMap && len(t.A[2].A) == 2 && allSame(t.A[2].A[1].S, ch, e.size)
+					case "lst":
+						good = len(t.A) >= 3 && t.A[2].K == KMap && len(t.A[2].A) == 2 && t.A[2].A[1].K == KArr
+						if good {
+							total := 0
+							for _, el := range t.A[2].A[1].A {
+								if bytes.Count(el.S, []byte{ch}) != len(el.S) {
+									good = false
+								}
+								total += len(el.S)
+							}
+							good = good && total == e.size
+						}
 					case "fwd":
 						good = t.A[1].K == KArr && len(t.A[1].A) == 1 && len(t.A[1].A[0].A) == 2 && t.A[1].A[0].A[1].K == KMap &&
 							len(t.A[1].A[0].A[1].A) == 2 && allSame(t.A[1].A[0].A[1].A[1].S, ch, e.size)
@@ -372,6 +409,57 @@ func init() {
 				}
 			}
 			return fmt.Sprintf("bad=%d overlap=%d %s", bad, atomic.LoadInt32(&cn.overlap), detail)
+		case "hsrec":
+			// a Reconnect arrives while a handshake is waiting for its PONG; afterwards the client may be in transport
+			// phase only on a connection that saw a PING
+			key := []byte("k")
+			bad, detail := 0, ""
+			for round := 0; round < 4 && bad == 0; round++ {
+				f := &concFactory{w: w, pongDelay: 25 * time.Millisecond}
+				c := client.New(client.ConnectionOptions{Factory: f, ConnectionTimeout: time.Second, AuthInfo: client.AuthInfo{SharedKey: key}})
+				c.Hostname = "h"
+				helo, _ := protocol.NewHelo(&protocol.HeloOpts{Nonce: []byte("n"), Auth: []byte{}, Keepalive: true}).MarshalMsg(nil)
+				f.helo = helo
+				f.pongKey = key
+				if err := c.Connect(); err != nil {
+					return "bad=1 connect"
+				}
+				hs := make(chan error, 1)
+				go func() { hs <- c.Handshake() }()
+				select {
+				case <-f.conns[0].gotPing:
+				case <-time.After(2 * time.Second):
+				}
+				rec := make(chan error, 1)
+				go func() { rec <- c.Reconnect() }()
+				for _, ch := range []chan error{hs, rec} {
+					select {
+					case <-ch:
+					case <-time.After(5 * time.Second):
+						return "bad=1 deadlock-or-hang"
+					}
+				}
+				if c.TransportPhase() {
+					_ = c.SendRaw([]byte{0xc0})
+				}
+				f.mu.Lock()
+				for _, cn := range f.conns {
+					cn.mu.Lock()
+					wire := append([]byte{}, cn.wire...)
+					cn.mu.Unlock()
+					if len(wire) == 0 {
+						continue
+					}
+					var ping protocol.Ping
+					if _, err := ping.UnmarshalMsg(wire); err != nil || ping.MessageType != "PING" {
+						bad++
+						detail = fmt.Sprintf("event-data-on-connection-%d-that-never-saw-a-PING", cn.id)
+					}
+				}
+				f.mu.Unlock()
+				_ = c.Disconnect()
+			}
+			return fmt.Sprintf("bad=%d %s", bad, detail)
 		case "hsrace":
 			// one goroutine completes honest handshakes (Reconnect + Handshake) while others poll TransportPhase
 			key := []byte("k")
@@ -481,7 +569,7 @@ func init() {
 		return "bad-scenario"
 	}
 	suites["conc"] = func(o *Out, r *Rng, n int, tier string) {
-		sc := []string{"sendmix", "sendack", "hsmix", "lifecycle", "hsrace", "helpermix"}
+		sc := []string{"sendmix", "sendack", "hsmix", "lifecycle", "hsrace", "helpermix", "hsrec"}
 		for i := 0; i < n; i++ {
 			o.emit("C08", "CONC", sc[i%len(sc)], itoa(int64(r.Intn(1000000))))
 		}
